@@ -1,6 +1,7 @@
 package rules
 
 import (
+	"go/constant"
 	"go/token"
 	"go/types"
 	"strings"
@@ -858,4 +859,226 @@ func recordFieldAcross(c *core.Ctx, rec ssa.Value, field string, depth int) ssa.
 		return resolveAcross(c, vals[0], depth+1)
 	}
 	return nil
+}
+
+// callerEdgesOfOutcome: a step of the module that leaves through the edge (from, succ) — the failure edge of a test,
+// say — without dealing with the outcome itself tells its caller: by an error result that is certainly non-nil on the
+// returns behind that edge, or by a record result one field of which holds a constant there that no other return of the
+// step gives it (return result{step: stepVerify, err: err}).  For a step with exactly one static call the function
+// returns that call and the edges of the caller taken when the step left that way: the non-nil edge of the tests of
+// the error result, the ‘field == constant’ edges of the tests of the record field.  ok is false when the step does
+// not signal the outcome in one of these forms, or the caller never tests it.
+func callerEdgesOfOutcome(c *core.Ctx, fn *ssa.Function, from *ssa.BasicBlock, succ int) (site *ssa.Call, edges []an.Edge, ok bool) {
+	sites := c.P.Callers(fn)
+	if len(sites) != 1 {
+		return nil, nil, false
+	}
+	site, _ = sites[0].(*ssa.Call)
+	if site == nil || site.Call.IsInvoke() || site.Call.StaticCallee() != fn {
+		return nil, nil, false
+	}
+	var behind, others []*ssa.Return
+	an.Instrs(fn, func(in ssa.Instruction) {
+		if ret, isRet := in.(*ssa.Return); isRet {
+			if an.EdgeDominates(from, succ, ret.Block()) || (from.Succs[succ] == ret.Block() && len(ret.Block().Preds) == 1) {
+				behind = append(behind, ret)
+			} else {
+				others = append(others, ret)
+			}
+		}
+	})
+	if len(behind) == 0 {
+		return nil, nil, false
+	}
+	// every block behind the edge ends in one of those returns
+	for _, b := range fn.Blocks {
+		if b != from.Succs[succ] && !an.EdgeDominates(from, succ, b) {
+			continue
+		}
+		for _, s := range b.Succs {
+			if s != from.Succs[succ] && !an.EdgeDominates(from, succ, s) {
+				return nil, nil, false
+			}
+		}
+	}
+	caller := site.Parent()
+	resultAt := func(i int) ssa.Value {
+		if fn.Signature.Results().Len() == 1 {
+			return site
+		}
+		if site.Referrers() != nil {
+			for _, ref := range *site.Referrers() {
+				if ex, isEx := ref.(*ssa.Extract); isEx && ex.Index == i {
+					return ex
+				}
+			}
+		}
+		return nil
+	}
+	constOf := func(v ssa.Value) (constant.Value, bool) {
+		k, isC := an.Strip(v).(*ssa.Const)
+		if !isC || k.Value == nil {
+			return nil, false
+		}
+		return k.Value, true
+	}
+	zeroOf := func(t types.Type) constant.Value {
+		switch b := t.Underlying().(type) {
+		case *types.Basic:
+			switch {
+			case b.Info()&types.IsBoolean != 0:
+				return constant.MakeBool(false)
+			case b.Info()&types.IsInteger != 0:
+				return constant.MakeInt64(0)
+			case b.Info()&types.IsString != 0:
+				return constant.MakeString("")
+			}
+		}
+		return nil
+	}
+	nres := fn.Signature.Results().Len()
+	for i := 0; i < nres; i++ {
+		rt := fn.Signature.Results().At(i).Type()
+		// (1) an error result
+		if types.Identical(rt, types.Universe.Lookup("error").Type()) {
+			all := true
+			for _, ret := range behind {
+				if i >= len(ret.Results) || !an.DefiniteError(ret.Results[i]) {
+					// the error tested on the edge itself
+					if ifi := an.BlockIf(from); ifi != nil {
+						if x, nilSucc, isNil := an.NilTest(ifi); isNil && nilSucc != succ && i < len(ret.Results) && an.Origin(ret.Results[i]) == an.Origin(x) {
+							continue
+						}
+					}
+					all = false
+				}
+			}
+			rv := resultAt(i)
+			if !all || rv == nil {
+				continue
+			}
+			for _, b := range caller.Blocks {
+				ifi := an.BlockIf(b)
+				if ifi == nil {
+					continue
+				}
+				if x, nilSucc, isNil := an.NilTest(ifi); isNil && an.Origin(x) == an.Origin(rv) {
+					edges = append(edges, an.Edge{From: b, Succ: 1 - nilSucc})
+				}
+			}
+			if len(edges) > 0 {
+				return site, edges, true
+			}
+			continue
+		}
+		// (2) a record result
+		st, isStruct := rt.Underlying().(*types.Struct)
+		if !isStruct {
+			continue
+		}
+		rv := resultAt(i)
+		if rv == nil {
+			continue
+		}
+		for fi := 0; fi < st.NumFields(); fi++ {
+			fname := st.Field(fi).Name()
+			zero := zeroOf(st.Field(fi).Type())
+			if zero == nil {
+				continue
+			}
+			fieldConst := func(ret *ssa.Return) (constant.Value, bool) {
+				if i >= len(ret.Results) {
+					return nil, false
+				}
+				vals := literalStores(c, ret.Results[i])[fname]
+				switch len(vals) {
+				case 0:
+					// a literal that leaves the field out, or the zero record
+					switch x := an.Strip(ret.Results[i]).(type) {
+					case *ssa.UnOp:
+						if _, isAl := x.X.(*ssa.Alloc); isAl && x.Op == token.MUL {
+							return zero, true
+						}
+					case *ssa.Const:
+						if x.Value == nil {
+							return zero, true
+						}
+					}
+					return nil, false
+				case 1:
+					return constOf(vals[0])
+				}
+				return nil, false
+			}
+			var k constant.Value
+			good := true
+			for _, ret := range behind {
+				v, isC := fieldConst(ret)
+				if !isC || (k != nil && !constant.Compare(k, token.EQL, v)) {
+					good = false
+					break
+				}
+				k = v
+			}
+			if !good || k == nil {
+				continue
+			}
+			for _, ret := range others {
+				v, isC := fieldConst(ret)
+				if !isC || constant.Compare(k, token.EQL, v) {
+					good = false
+					break
+				}
+			}
+			if !good {
+				continue
+			}
+			// the caller's tests of that field
+			isField := func(v ssa.Value) bool {
+				switch x := an.Strip(v).(type) {
+				case *ssa.Field:
+					return x.Field == fi && an.Origin(x.X) == an.Origin(rv)
+				case *ssa.UnOp:
+					if fa, isFA := x.X.(*ssa.FieldAddr); isFA && x.Op == token.MUL && fa.Field == fi {
+						if al, isAl := fa.X.(*ssa.Alloc); isAl {
+							if whole := an.SingleStore(al); whole != nil && an.Origin(whole) == an.Origin(rv) {
+								return true
+							}
+						}
+					}
+				}
+				return false
+			}
+			for _, b := range caller.Blocks {
+				ifi := an.BlockIf(b)
+				if ifi == nil {
+					continue
+				}
+				if x, y, op, isCmp := an.CmpTest(ifi); isCmp && (op == token.EQL || op == token.NEQ) {
+					if !isField(x) {
+						x, y = y, x
+					}
+					if kv, isC := constOf(y); isC && isField(x) && constant.Compare(k, token.EQL, kv) {
+						if op == token.EQL {
+							edges = append(edges, an.Edge{From: b, Succ: 0})
+						} else {
+							edges = append(edges, an.Edge{From: b, Succ: 1})
+						}
+					}
+					continue
+				}
+				if base, neg := an.CondBase(ifi.Cond); isField(base) && k.Kind() == constant.Bool {
+					if constant.BoolVal(k) != neg {
+						edges = append(edges, an.Edge{From: b, Succ: 0})
+					} else {
+						edges = append(edges, an.Edge{From: b, Succ: 1})
+					}
+				}
+			}
+			if len(edges) > 0 {
+				return site, edges, true
+			}
+		}
+	}
+	return nil, nil, false
 }
